@@ -34,6 +34,26 @@ type multicastProxy struct {
 
 	multicastLock sync.Mutex
 	members       []io.Closer
+	runs          int // 启动次数；用于区分每次启动对应的消费
+}
+
+// multicastRun 是代理某一次启动对应的消费者。
+// 代理停止后，被停止的消费稍后才会回调 Close；此时代理可能已被新成员重新启动，
+// 过期的回调不能把重新启动的代理关掉。
+type multicastRun struct {
+	proxy *multicastProxy
+	run   int
+}
+
+func (r *multicastRun) Consume(p Pack) { r.proxy.Consume(p) }
+
+func (r *multicastRun) Close() error {
+	r.proxy.multicastLock.Lock()
+	defer r.proxy.multicastLock.Unlock()
+	if r.run == r.proxy.runs {
+		r.proxy.close()
+	}
+	return nil
 }
 
 func (proxy *multicastProxy) AddMember(m io.Closer) {
@@ -63,7 +83,8 @@ func (proxy *multicastProxy) AddMember(m io.Closer) {
 		}
 
 		proxy.members = append(proxy.members, m)
-		proxy.cid = stream.StartConsume(proxy, media.RTPPacket,
+		proxy.runs++
+		proxy.cid = stream.StartConsume(&multicastRun{proxy, proxy.runs}, media.RTPPacket,
 			"net = rtsp-multicast, "+proxy.multicastIP)
 		proxy.closed = false
 
